@@ -115,7 +115,7 @@ def width(e, c):
         return max(width(e[2], c), width(e[3], c))
     if k == "not":
         return width(e[1], c)
-    if k in ("in", "inl", "dyn"):
+    if k in ("in", "inl", "dyn", "dynel"):
         return 1
     if k in ("ps", "pse"):
         return e[2] - e[3] + 1
@@ -152,7 +152,7 @@ def signed(e, c):
         return signed(e[2], c) and signed(e[3], c)
     if k == "not":
         return signed(e[1], c)
-    if k in ("in", "inl", "ps", "pse", "dyn", "sz"):
+    if k in ("in", "inl", "ps", "pse", "dyn", "dynel", "sz"):
         return False
     if k in ("el", "it"):
         return c.types[elkey(e, c)[1]]["signed"]
@@ -240,6 +240,9 @@ def ev(e, c, ctx=-1):
         return (0, 1)
     if k == "dyn":
         return (1 if all(holds(s, c) for s in c.dyn[e[1]]) else 0, 1)
+    if k == "dynel":
+        # ["dynel", list, index expr, block]: the dynamic block of the list element selected by the index
+        return (1 if all(holds(s, c) for s in c.dyn["%s[%d].%s" % (e[1], _idx(e[2], c), e[3])]) else 0, 1)
     if k == "bin":
         op, l, r = e[1], e[2], e[3]
         cw = max(width(l, c), width(r, c), ctx if op not in CMP else -1)
@@ -363,7 +366,7 @@ def is_boolean(e):
     if not isinstance(e, list) or not e:
         return False
     k = e[0]
-    if k in ("in", "inl"):
+    if k in ("in", "inl", "dynel"):
         return True
     if k == "not":
         return len(e) > 1 and is_boolean(e[1])
@@ -475,6 +478,8 @@ def fields_of_expr(e, acc=None):
         acc.add("$" + e[1])
     elif k == "dyn":
         acc.add("@" + e[1])
+    elif k == "dynel":
+        acc.add("@%s[].%s" % (e[1], e[3]))
     return acc
 
 
